@@ -28,8 +28,8 @@ ASSUMPTIONS = ["bit-identical in exact mode, within 1e-9*max(1,max|v|) in float 
 PROBES = ["two_sizes_interleaved", "evict_between_computes_same_n", "torn_on_one_twin", "scribble_on_one_twin",
           "n2_pair", "float_mode", "exact_mode"]
 TIERS = {
-    "quick": {"runs": 12000, "wall": 40, "batch": 12, "shrink_s": 40},
-    "thorough": {"runs": 800000, "wall": 600, "batch": 24, "shrink_s": 120},
+    "quick": {"runs": 50000, "wall": 40, "batch": 24, "shrink_s": 40},
+    "thorough": {"runs": 8000000, "wall": 900, "batch": 32, "shrink_s": 120},
 }
 
 
